@@ -6,7 +6,6 @@ import (
 	"net/url"
 	"os"
 	"reflect"
-	"sort"
 	"strings"
 	"sync"
 	"time"
@@ -182,15 +181,6 @@ func sectionOf(path string) string {
 		return path[:i]
 	}
 	return ""
-}
-
-func sortedKeys(m map[string]string) []string {
-	ks := make([]string, 0, len(m))
-	for k := range m {
-		ks = append(ks, k)
-	}
-	sort.Strings(ks)
-	return ks
 }
 
 // slug makes an error message usable inside a finding key.
